@@ -3,6 +3,7 @@ package main
 import (
 	"encoding/json"
 	"fmt"
+	"strings"
 	"sync"
 
 	"github.com/antonmedv/expr"
@@ -43,6 +44,13 @@ type SchedScenario struct {
 	// Process-global state (caches, lazily initialised tables) is then first
 	// touched under the scheduler. Uses the default budget.
 	Cold bool `json:"cold_process,omitempty"`
+	// Lenient: the shared options include AllowUndefinedVariables (and one
+	// program mentions names the environment does not have).
+	Lenient bool `json:"allow_undefined,omitempty"`
+}
+
+func g0raw(r *RNG) string {
+	return r.Pick([]string{"Undef1 == nil or P", "[A, Undef2]", "Undef1 == Undef2", "P ? A : Undef3"})
 }
 
 func (sc *SchedScenario) clone() *SchedScenario {
@@ -77,7 +85,7 @@ func (c08Engine) Assumptions() []string {
 	}
 }
 func (c08Engine) Required(tier string) []string {
-	req := []string{"hook_calls", "context_switches", "switches_inside_op", "ops_run", "ops_vmrun", "ops_compile", "policy/" + PolUniform, "policy/" + PolBurst, "policy/" + PolPCT, "policy/" + PolSeq, "snapshots_during_run", "tight_budget_scenarios", "cold_process_scenarios", "untyped_programs", "yields_in_env_function", "yields_in_visitor"}
+	req := []string{"hook_calls", "context_switches", "switches_inside_op", "ops_run", "ops_vmrun", "ops_compile", "policy/" + PolUniform, "policy/" + PolBurst, "policy/" + PolPCT, "policy/" + PolSeq, "snapshots_during_run", "tight_budget_scenarios", "cold_process_scenarios", "untyped_programs", "budget_fault_scenarios", "yields_in_env_function", "yields_in_visitor"}
 	if raceEnabled {
 		req = append(req, "race_detector_active")
 	}
@@ -123,6 +131,8 @@ func genConstHeavy(r *RNG) *N {
 			return nLen(nBi("filter", nID("Xs"), nBin("in", nPtr(), nArr(nInt(1), nInt(2), nInt(3), nInt(5)))))
 		case 10:
 			return nBi("count", nID("Ss"), nBin("in", nPtr(), nArr(nStr("a"), nStr("ab"), nStr("é"))))
+		case 12:
+			return nArr(nCall("Tup", nInt(r.Range(0, 5)), nID("A")), nCall("Tup", nID("B"), nInt(2))) // fast calls keeping their argument slices
 		case 11:
 			// run-time patterns that differ between programs
 			switch r.Intn(3) {
@@ -176,6 +186,15 @@ func (c08Engine) Gen(seed uint64, idx int, tier string) interface{} {
 	sc.BudgetSlack = -1
 	if r.Chance(3, 5) {
 		sc.BudgetSlack = r.Intn(3)
+	} else if r.Chance(1, 3) {
+		sc.BudgetSlack = -2
+	}
+	sc.Lenient = r.Chance(1, 4)
+	if sc.Lenient {
+		// a program that mentions names the environment does not have
+		ps := ProgSpec{Kind: "unknown-names", Raw: g0raw(r), Optimize: true}
+		ps.Source = ps.Raw
+		sc.Progs[r.Intn(len(sc.Progs))] = ps
 	}
 	sc.ConstExpr = r.Chance(1, 3)
 	if r.Chance(1, 4) {
@@ -308,6 +327,7 @@ func runSched(sc *SchedScenario, ctx *RunCtx) (*Finding, []Seg) {
 	sample := BuildEnv(w, sc.Env).AsRep(sc.Rep)
 	envOpt := expr.Env(sample)
 	patchOpt := expr.Patch(yieldVisitor{})
+	lenientOpt := expr.AllowUndefinedVariables()
 	optsOf := make([][]expr.Option, len(sc.Progs))
 	typedOpts := func(p ProgSpec) []expr.Option {
 		o := []expr.Option{envOpt, patchOpt}
@@ -316,6 +336,9 @@ func runSched(sc *SchedScenario, ctx *RunCtx) (*Finding, []Seg) {
 		}
 		if sc.ConstExpr {
 			o = append(o, expr.ConstExpr("CI"), expr.ConstExpr("CS"), expr.ConstExpr("CB"))
+		}
+		if sc.Lenient {
+			o = append(o, lenientOpt)
 		}
 		return o
 	}
@@ -352,6 +375,11 @@ func runSched(sc *SchedScenario, ctx *RunCtx) (*Finding, []Seg) {
 		srcs[i] = p.Src()
 		for _, pool := range [][]*vm.Program{baseProgs, progs} {
 			pr, co := sutCompile(srcs[i], optsOf[i]...)
+			if co.Failed() && p.Tree == nil && !co.Panicked {
+				// a raw program this configuration does not accept: replace it by a trivial one
+				srcs[i] = "A"
+				pr, co = sutCompile(srcs[i], optsOf[i]...)
+			}
 			if co.Failed() {
 				return &Finding{Class: "C08/compile-rejected", Detail: "Compile rejected a well-typed program of the fragment: " + co.ErrText() + "\nsource: " + srcs[i]}, nil
 			}
@@ -368,10 +396,24 @@ func runSched(sc *SchedScenario, ctx *RunCtx) (*Finding, []Seg) {
 		key   string
 		steps int
 	}
-	baseline := func(kind string, pi int) base {
+	baselineSrc := func(kind string, pi int, src string) base {
 		s.takeMainSteps()
-		k := schedExec(kind, baseProgs[pi], &vm.VM{}, srcs[pi], optsOf[pi], envShared)
+		k := schedExec(kind, baseProgs[pi], &vm.VM{}, src, optsOf[pi], envShared)
 		return base{k, s.takeMainSteps()}
+	}
+	baseline := func(kind string, pi int) base { return baselineSrc(kind, pi, srcs[pi]) }
+	// opSrc: a Compile op on the program that mentions unknown names compiles a
+	// variant with names no earlier compilation (not even the pool's) has seen, so
+	// that whatever a lenient compilation records about a new name happens under
+	// the scheduler.
+	opSrc := func(ti, oi int, op SchedOp) string {
+		if op.Kind == "compile" && sc.Progs[op.Prog].Kind == "unknown-names" {
+			return strings.ReplaceAll(srcs[op.Prog], "Undef", fmt.Sprintf("UndefT%dO%dx", ti, oi))
+		}
+		return srcs[op.Prog]
+	}
+	baseKey := func(ti, oi int, op SchedOp) string {
+		return fmt.Sprintf("%s/%d/%s", op.Kind, op.Prog, Digest(opSrc(ti, oi, op)))
 	}
 	vm.MemoryBudget = defaultBudget
 	need := 1
@@ -403,16 +445,24 @@ func runSched(sc *SchedScenario, ctx *RunCtx) (*Finding, []Seg) {
 		budget = need + sc.BudgetSlack
 		ctx.Count("tight_budget_scenarios", 1)
 	}
+	if sc.BudgetSlack == -2 && !sc.Cold && need > 2 {
+		// below the largest need: some ops fail by the budget, concurrently
+		budget = need - 1 - int(sc.Seed%3)
+		if budget < 1 {
+			budget = 1
+		}
+		ctx.Count("budget_fault_scenarios", 1)
+	}
 	vm.MemoryBudget = budget
 
 	bases := map[string]base{}
 	totalSteps := 0
 	takeBaselines := func() {
-		for _, ops := range sc.Tasks {
-			for _, op := range ops {
-				k := fmt.Sprintf("%s/%d", op.Kind, op.Prog)
+		for ti, ops := range sc.Tasks {
+			for oi, op := range ops {
+				k := baseKey(ti, oi, op)
 				if _, ok := bases[k]; !ok {
-					bases[k] = baseline(op.Kind, op.Prog)
+					bases[k] = baselineSrc(op.Kind, op.Prog, opSrc(ti, oi, op))
 				}
 				totalSteps += bases[k].steps + 8
 			}
@@ -478,6 +528,10 @@ func runSched(sc *SchedScenario, ctx *RunCtx) (*Finding, []Seg) {
 	for ti := range sc.Tasks {
 		results[ti] = make([]opResult, len(sc.Tasks[ti]))
 		wg.Add(1)
+		opSrcs := make([]string, len(sc.Tasks[ti]))
+		for oi, op := range sc.Tasks[ti] {
+			opSrcs[oi] = opSrc(ti, oi, op)
+		}
 		go func(t *schedTask, ops []SchedOp, res []opResult) {
 			defer wg.Done()
 			machine := &vm.VM{}
@@ -485,7 +539,7 @@ func runSched(sc *SchedScenario, ctx *RunCtx) (*Finding, []Seg) {
 			for i, op := range ops {
 				s.yield('s')
 				t.resetSteps()
-				key := schedExec(op.Kind, progs[op.Prog], machine, srcs[op.Prog], optsOf[op.Prog], envShared)
+				key := schedExec(op.Kind, progs[op.Prog], machine, opSrcs[i], optsOf[op.Prog], envShared)
 				st, sw := t.opStats()
 				res[i] = opResult{key: key, steps: st, switches: sw, aborted: t.abort}
 				s.yield('f')
@@ -554,7 +608,7 @@ func runSched(sc *SchedScenario, ctx *RunCtx) (*Finding, []Seg) {
 	for ti, ops := range sc.Tasks {
 		for i, op := range ops {
 			r := results[ti][i]
-			b := bases[fmt.Sprintf("%s/%d", op.Kind, op.Prog)]
+			b := bases[baseKey(ti, i, op)]
 			if r.aborted {
 				return &Finding{Class: "C08/no-progress", Detail: fmt.Sprintf("task %d op %d (%s of program %d) exceeded the step bound %d (alone: %d instructions)\n%s", ti, i, op.Kind, op.Prog, s.stepBound, b.steps, detailHead())}, rec
 			}
@@ -684,6 +738,9 @@ func (c08Engine) Shrinks(sci interface{}) []interface{} {
 	// unused programs → simplify used ones
 	for pi, p := range sc.Progs {
 		pi := pi
+		if p.Tree == nil {
+			continue
+		}
 		ts := treeShrinks(p.Tree)
 		if len(ts) > 60 {
 			ts = ts[:60]
